@@ -12,7 +12,7 @@ CLAIMED = {
  "C10": ("the in-memory timed B-tree against a reference multi-version ordered map over bounded bulk-insert sequences from the empty tree (symbolic keys, values, timestamps; node size forcing splits): structure, in-order content, point lookups, revision counts, rejection of stale timestamps without change, and copy-on-write (a pinned root keeps answering as before)",
          "flush, compaction, restart, readers (seek/end/direction), history log, snapshot policy and concurrency are outside the claim; 1-byte keys/values, at most 3 bulks", "DESIGN.md §4 C10"),
  "C03": ("hash-tree crash consistency on the real AHtree code: for every crash point between the appendable operations of a workload of n appends (sync thresholds 1..2/3, optional explicit syncs) and every combination of which unsynced writes reached each of the three logs (plus a torn last commit entry), reopening succeeds, keeps every entry covered by a completed sync and serves only roots/payloads of the appended sequence",
-         "ONLY the hash tree: recovery of the whole store (store.OpenWith), the commit-step fsync ordering of ImmuStore.sync, the index, repeated crashes and concurrent committers are outside the claim; crash model and granularity are listed in the evidence", "DESIGN.md §4 C03"),
+         "the hash tree plus the write ordering of ImmuStore.sync (value logs, tx log and hash tree are flushed and synced before any commit-log entry is appended, and the commit log is synced before the synced frontier moves), decided on a recording appendable; recovery of the whole store (store.OpenWith), the index, repeated crashes and concurrent committers are outside the claim; crash model and granularity are listed in the evidence", "DESIGN.md §4 C03"),
  "C04": ("what reaches the index: for every bulk of committed transactions within the bounds (bulk size, entries per tx, symbolic keys and non-indexable flags) the plain indexer hands the tree exactly one (key, tx id) per indexable entry, in order, with intact key content, and only advances the logical time when nothing is indexable",
          "tx reader, semaphore, watchers and the tree are stubs/recorders; mapped and injective indexes, deleted/expired filters, the asynchronous indexer and restart are outside the claim", "DESIGN.md §4 C04"),
  "C06": ("the sequential mechanism behind conditional writes only: a write carrying preconditions (must exist / must not exist / not modified after tx) is admitted iff every precondition holds on the index state it is evaluated on, for every symbolic state and precondition list within the bounds; malformed preconditions are rejected",
@@ -32,15 +32,15 @@ CLAIMED = {
  "C17": ("the multi-file appendable refines one growable byte array over bounded sequences of append / set-offset / read / discard with symbolic payloads, lengths and offsets, for every chunk-boundary alignment and cache (max-open-files) size within the bounds",
          "chunks are in-memory appendables behind the real hooks interface; the single-file appendable over os.File, compression, reopen and Copy are outside the claim; reads beyond the logical end after a rewind are unspecified (neither appendable truncates on SetOffset)", "DESIGN.md §4 C17"),
  "C01": ("soundness of verification as binding obligations: Alh/entry-digest/linear-proof binding, and the client-history chain (honest prefix, one or two adversarial state advances accepted by VerifyDualProof, then a verified read of an earlier transaction) => the accepted past transaction is the honest one; all headers, digests and proof terms symbolic, ids <= 4 (quick) / 5-6 (thorough)",
-         "SHA-256 uninterpreted/collision-free/cycle-free; ECDSA signature checks and the gRPC client/server sequencing are outside the claim; completeness (honest proofs verify) is covered for the tree generators under C08 and by the repository's own tests, not re-proved here yet", "DESIGN.md §4 C01"),
+         "SHA-256 uninterpreted/collision-free/cycle-free; ECDSA signature checks and the gRPC client/server sequencing are outside the claim; completeness: honest dual proofs assembled from the real generators over a symbolic honest history (ids <= 4/5, every lag shape of BlTxID) are accepted by VerifyDualProof; ImmuStore.DualProof's own assembly over a live store and Tx.Proof/IndexOf are outside the claim", "DESIGN.md §4 C01"),
  "C09": ("integrity-checked reads: value reads return the value of the entry's digest or fail for every value-log content/offset/length; sequential tx scans accept a tx only if it chains to the previous one",
-         "tx-record parser obligations under construction; compressed/chunked logs outside the claim", "DESIGN.md §4 C09"),
+         "a tx record whose bytes are arbitrary (fixed layout: every content byte; free layout: also the length fields, within the stated metadata bounds) is rejected by Tx.readFrom or does not carry the pinned Alh, or yields exactly the original header and entry; compressed/chunked logs outside the claim", "DESIGN.md §4 C09"),
  "C08": ("both hash trees against the reference Merkle construction: generated roots/proofs equal the reference and verify; each verifier accepts only proofs binding the claimed position/size/leaf to the honest root, for all symbolic digests within the size bounds",
          "SHA-256 modelled as an uninterpreted function, collision-free and cycle-free among the evaluations of a path; tree sizes <= 8 (quick) / 16 (thorough)", "DESIGN.md §4 C08"),
  "C15": ("round-trip and order obligations of the real codec functions hold for every value of the symbolic inputs within the stated length bounds",
          "bounds per obligation in evidence", "DESIGN.md §4 C15"),
  "C16": ("every Go run-time panic condition of the listed decoders is an explicit branch whose feasibility the solver decides for all input buffers within the length bounds",
-         "listed decoders only (not SQL text, pgwire, streams); embedded metadata blocks bounded as stated per obligation", "DESIGN.md §4 C16"),
+         "listed decoders only, incl. sql.DecodeValue/DecodeValueLength/DecodeNullableValue per column type (not SQL text, pgwire, streams); embedded metadata blocks bounded as stated per obligation", "DESIGN.md §4 C16"),
 }
 NA = {
  "C12": "constraint enforcement is only reachable through the SQL engine end to end (parser, catalog, live SQLTx), which the SSA->SMT executor cannot encode; ingredients decided under C15/C05",
